@@ -3,7 +3,9 @@
      decode <lim> <codes>       -> "ok <v>" | "baddigit" | "toolong"  (strip_underscores, suffix, str_to_number)
      outcome <checked> <lim> <codes> -> "accepted <v>" | "error" | "crash"
      value <codes>              -> the IntNode.value text
-     strbegin <codes>           -> lexicon / python booleans *)
+     strbegin <codes>           -> lexicon / python booleans
+     dots <fixed> <n>           -> "<scan>|<spec>|<level>": token lengths of a run of n dots by the longest-match scan with the
+                                   model rules, by the closed form n/3 x '...' ++ n mod 3 x '.', and the import level *)
 let handle = function
   | ["kind"; fx; t] ->
       let t = zlist_of_string t in
@@ -17,5 +19,10 @@ let handle = function
   | ["value"; t] -> string_of_zlist (int_token_value (zlist_of_string t))
   | ["strbegin"; t] ->
       let (a, b) = x_strbegin (zlist_of_string t) in string_of_bool a ^ " " ^ string_of_bool b
+  | ["dots"; fx; n] ->
+      let n = nat_of_int (int_of_string n) in
+      let show l = String.concat " " (List.map (fun k -> string_of_int (int_of_nat k)) l) in
+      show (x_scan_dots (S n) (bool_of_string fx) n) ^ "|" ^ show (dot_tokens n) ^ "|"
+      ^ string_of_int (int_of_nat (import_level (dot_tokens n)))
   | _ -> "!ERR badcmd"
 let () = main_loop handle
